@@ -91,7 +91,10 @@ BOUND = ('error kinds %s x rendering (Accept in %s) x position of the request te
          '(histories %s): history on>off x the exception-echoing kinds x Accept in {none, application/json} x every position x '
          'every payload (exhaustive); the other three histories x those kinds x Accept x position in {path, all} x 8 markup + 4 '
          'format payloads; history on>off x every other kind x Accept x position in {path, all} x 8 payloads; on>off x echoing kinds '
-         'x catchall=False x 8 markup payloads; 300 (thorough 6000) seeded random payloads over all kinds x all histories x catchall'
+         'x catchall=False x 8 markup payloads; 300 (thorough 6000) seeded random payloads over all kinds x all histories x catchall. '
+         'Added: long request text - kinds {404, 405, 400path, 500, 500echo} x Accept in {none, application/json} x position in '
+         '{path, query, host, all} x padding {300, 1100, 5000} (thorough: + 1000, 70000) x 3 payload shapes (markup at both ends '
+         'of the padding, markup after it, markup repeated throughout)'
          % ('{' + ', '.join(KINDS) + '}', ACCEPTS, len(MARKUP), len(FORMATS), ', '.join(ECHO_KINDS), HISTORIES))
 NONTRIVIAL_RULE = ('distinct (kind, accept, where, payload, previous, catchall, history); every case carries at least one '
                    'significant character')
@@ -170,6 +173,13 @@ def gen_cases(tier, seed):
         p = ''.join(rnd3.choice(alphabet) for _ in range(rnd3.randrange(2, 14)))
         yield dict(kind=rnd3.choice(ALL_KINDS), accept=rnd3.choice(ACCEPTS), where=rnd3.choice(WHERES), payload=p, prev=None,
                    catchall=rnd3.choice([0, 1]), history=rnd3.choice(HISTORIES))
+    # long request text (an error page that shortens, wraps or pages what it echoes must still escape all of it)
+    for kind in ('404', '405', '400path', '500', '500echo'):
+        for accept in ('', 'application/json'):
+            for where in ('path', 'query', 'host', 'all'):
+                for pad in ((300, 1100, 5000) if not thorough else (300, 1000, 1100, 5000, 70000)):
+                    for p in (markup[0] + 'a' * pad + markup[1], 'a' * pad + markup[3], markup[1] * (pad // len(markup[1]) + 1)):
+                        yield dict(kind=kind, accept=accept, where=where, payload=p, prev=None)
     if thorough:
         for kind, accept, where, p in prevs[:200]:
             for pk in ECHO_KINDS:
